@@ -118,6 +118,9 @@ int SimulateF100L::run(int max_cycles, int step)
 
   printf("Running... Press Ctl-C to break.\n");
 
+  // A HALT (or Ctl-C) of an earlier run must not stop this one.
+  stop_running = false;
+
   while (stop_running == false)
   {
     pc_current = pc;
